@@ -488,5 +488,7 @@ def run(cx, out):
     # premises: everything that reads a compact through another entry point uses the same acceptance: the length peek
     # (C18 R18.1 reads exactly the Compact<u32> count) and any skip override (C18 R18.2 mirrors decode)
     from . import shared
-    shared.premises(cx, out, {'c18': {'R18.1', 'R18.2'}})
+    # ... and the advertised maximum lengths of the compact types (incl. the blanket impl for CompactAs wrappers) are at
+    # least the table maxima (C13 R13.1, the general form of R04.4)
+    shared.premises(cx, out, {'c18': {'R18.1', 'R18.2'}, 'c13': {'R13.1'}})
 
